@@ -2,6 +2,8 @@
   JV.Proofs.CborParser — the cbor_parser model (JV.Model.CborParser) against the RFC 8949 reference decoder (JV.Spec.Cbor):
   head / integer / string readers agree with `readArg`, and by induction on the fuel the five mutually recursive readers agree
   (`Agrees`) with the reference's `item` / `items` / `itemsIndef` / `members` / `membersIndef`.
+  That `decode`'s fuel 2·|input|+2 never runs out is proved in JV.Proofs.CborParserFuel (`decode_ne_fuel`); the nesting limit in
+  JV.Proofs.CborParserDepth; claimed lengths against supplied bytes in JV.Proofs.CborParserClaims.
 -/
 import JV.Model.CborParser
 import JV.Proofs.JsonParser
